@@ -74,7 +74,7 @@ mod verif_l2_amend {
         keep_commb_only(o, n);
     }
 
-    //@ob id=L2.amend.srt flags=noassert props=C05,C06,C11,C12,C19 tier=quick kind=harness fns=plane/from_downlink.rs:update_from_downlink,plane/from_downlink/from_srt.rs:update_from_downlink
+    //@ob id=L2.amend.srt flags=noassert props=C05,C06,C11,C12,C19,C01 tier=quick kind=harness fns=plane/from_downlink.rs:update_from_downlink,plane/from_downlink/from_srt.rs:update_from_downlink
     //@region default path, row <- short record, every record with an address x every row: time stamp = receive time; DF4 record altitude (if any) -> altitude, DF5 record squawk -> squawk, DF11 record CA -> capability; everything else unchanged
     #[kani::proof]
     #[kani::unwind(34)]
@@ -134,7 +134,7 @@ mod verif_l2_amend {
         kani::cover!(true, "reach_end");
     }
 
-    //@ob id=L2.amend.mds flags=noassert props=C11,C12 tier=quick kind=harness fns=plane/from_downlink.rs:update_from_downlink,plane/from_downlink/from_mds.rs:update_from_downlink
+    //@ob id=L2.amend.mds flags=noassert props=C11,C12,C01 tier=quick kind=harness fns=plane/from_downlink.rs:update_from_downlink,plane/from_downlink/from_mds.rs:update_from_downlink
     //@region default path, row <- Comm-B record (used when a DF20/21 frame creates a row): contributes the address only; time stamp = receive time
     #[kani::proof]
     #[kani::unwind(34)]
@@ -295,16 +295,16 @@ mod verif_l2_amend {
             }
         };
     }
-    //@ob id=L2.amend.ext.tc0_4 flags=noassert props=C07,C11,C12,C19 tier=quick kind=harness fns=plane/from_downlink/from_ext.rs:update_from_downlink,plane/from_downlink/from_ext.rs:amend_from_ext_1_4
+    //@ob id=L2.amend.ext.tc0_4 flags=noassert props=C07,C11,C12,C19,C01 tier=quick kind=harness fns=plane/from_downlink/from_ext.rs:update_from_downlink,plane/from_downlink/from_ext.rs:amend_from_ext_1_4
     //@region default path, row <- extended record with type code 0..4, every record x every row: callsign + category from the record (TC1-4); clock; nothing else
     amend_ext_harness!(l2_amend_ext_tc0_4, 0, 4);
-    //@ob id=L2.amend.ext.tc5_18 flags=noassert props=C05,C08,C11,C12,C19 tier=quick kind=harness fns=plane/from_downlink/from_ext.rs:amend_from_ext_5_8,plane/from_downlink/from_ext.rs:amend_from_ext_9_18,plane/from_downlink/from_ext.rs:amend_cpr
+    //@ob id=L2.amend.ext.tc5_18 flags=noassert props=C05,C08,C11,C12,C19,C01 tier=quick kind=harness fns=plane/from_downlink/from_ext.rs:amend_from_ext_5_8,plane/from_downlink/from_ext.rs:amend_from_ext_9_18,plane/from_downlink/from_ext.rs:amend_cpr
     //@region default path, row <- position record TC5..18: altitude (blank for surface), status, ground fields, CPR slot stored + stamped with the refreshed row time stamp + position update requested
     amend_ext_harness!(l2_amend_ext_tc5_18, 5, 18);
-    //@ob id=L2.amend.ext.tc19 flags=noassert props=C09,C11,C12,C19 tier=quick kind=harness fns=plane/from_downlink/from_ext.rs:amend_from_ext_19
+    //@ob id=L2.amend.ext.tc19 flags=noassert props=C09,C11,C12,C19,C01 tier=quick kind=harness fns=plane/from_downlink/from_ext.rs:amend_from_ext_19
     //@region default path, row <- velocity record TC19, every subtype: vertical rate, track and ground speed FROM THE RECORD (subtype 1/2), heading (3/4), GNSS altitude from delta
     amend_ext_harness!(l2_amend_ext_tc19, 19, 19);
-    //@ob id=L2.amend.ext.tc20_up flags=noassert props=C11,C12,C19 tier=quick kind=harness fns=plane/from_downlink/from_ext.rs:amend_from_ext_20_22,plane/from_downlink/from_ext.rs:amend_from_ext_31
+    //@ob id=L2.amend.ext.tc20_up flags=noassert props=C11,C12,C19,C01 tier=quick kind=harness fns=plane/from_downlink/from_ext.rs:amend_from_ext_20_22,plane/from_downlink/from_ext.rs:amend_from_ext_31
     //@region default path, row <- extended record with type code >= 20: GNSS altitude + status (20-22), version (31), nothing for the rest
     amend_ext_harness!(l2_amend_ext_tc20_up, 20, u32::MAX);
 
@@ -347,7 +347,7 @@ mod verif_l2_amend {
             && p.adsb_version.is_none()
     }
 
-    //@ob id=L2.create.blank flags=noassert props=C12,C11 tier=quick kind=harness fns=plane.rs:Plane::new
+    //@ob id=L2.create.blank flags=noassert props=C12,C11,C01 tier=quick kind=harness fns=plane.rs:Plane::new
     //@region Plane::new: a fresh row remembers nothing (every parameter blank, CPR slots empty, time stamps = creation time)
     #[kani::proof]
     #[kani::unwind(34)]
@@ -359,7 +359,7 @@ mod verif_l2_amend {
         kani::cover!(true, "reach_end");
     }
 
-    //@ob id=L2.create.from_downlink flags=noassert props=C12,C11,C03,C17 tier=quick kind=harness fns=plane.rs:Plane::from_downlink
+    //@ob id=L2.create.from_downlink flags=noassert props=C12,C11,C03,C17,C01 tier=quick kind=harness fns=plane.rs:Plane::from_downlink
     //@region Plane::from_downlink(record, key) for every record variant and key: = blank row with icao = key, reg = icao_to_country(key), then the record applied (so creation obeys the same L2.amend contracts from the blank state)
     #[kani::proof]
     #[kani::unwind(34)]
